@@ -428,6 +428,9 @@ def run_ops(case, ctx, m, r, plan, real):
             # too many losses: documented failure; memory inside the range
             # is unspecified, everything else was checked above
             ctx.count("timeouts")
+            check(plan is not None, "timeout-on-a-faultless-network",
+                  "%s: %s although no datagram was lost, delayed or "
+                  "answered with an error" % (kind, failed), **where)
             if real:
                 # wall-clock trouble (a starved server thread): the command
                 # may still be executed later, so nothing after this point
